@@ -157,20 +157,24 @@ class Model:
                 if h is False: ok = False; break
                 if h is not True: feas.append(h)
             if ok: cands.append((a, feas, zq(self.objective.expr.value(a) if self.objective else 0)))
-        anyfeasible = False
-        for a, feas, (on, od) in cands:
-            cond = list(feas)
-            for b, feasb, (bn, bd) in cands:
-                if b is a: continue
-                better = on * bd <= bn * od
-                cond.append(z3.Or(z3.Not(z3.And(feasb)), better) if feasb else better)
-            e = z3.And(cond) if cond else z3.BoolVal(True)
-            if c.decide_z(e):
-                anyfeasible = True
+        if not cands:
+            return OptimizationStatus.INFEASIBLE
+        from math import gcd
+        D = 1
+        for _, _, (_, od) in cands:
+            D = D * od // gcd(D, od)
+        vals = [on * (D // od) for _, _, (on, od) in cands]               # objective values over the common denominator D
+        feasz = [z3.And(feas) if feas else z3.BoolVal(True) for _, feas, _ in cands]
+        if not c.decide_z(z3.Or(feasz)):
+            return OptimizationStatus.INFEASIBLE
+        # opt = the least objective value among the feasible assignments (a fresh solver variable defined by a side fact)
+        oi = c.fresh('opt')
+        opt = c.zvars[oi]
+        c.add_fact(('opt', oi, len(cands)), lambda: z3.And(z3.And([z3.Implies(f, opt <= v) for f, v in zip(feasz, vals)]),
+                                                            z3.Or([z3.And(f, opt == v) for f, v in zip(feasz, vals)])))
+        for (a, feas, _), f, v in zip(cands, feasz, vals):
+            if c.decide_z(z3.And(f, v == opt)):
                 if c.choose('opt'):
-                    for v, x in a.items(): v.x = float(x)
+                    for var, x in a.items(): var.x = float(x)
                     return OptimizationStatus.OPTIMAL
-        if anyfeasible:
-            raise PathAbort()     # the nondeterministic choice of the returned optimum is exhausted
-        # among finitely many assignments a feasible one implies an optimal one: none is feasible on this path
-        return OptimizationStatus.INFEASIBLE
+        raise PathAbort()     # the nondeterministic choice of the returned optimum is exhausted
